@@ -199,6 +199,18 @@ def run_cases(ck: Check, n2d: int, n3d: int):
         unit = np.array([math.sin(th) * math.cos(ph), math.sin(th) * math.sin(ph), math.cos(th)])
         if not np.allclose(ip, pos + float(d.interface_distance(*args)) * unit, rtol=1e-13, atol=1e-13):
             ck.fail(f"{cls_name}: interface_position is not centre + distance * direction", {**sig, "check": "interface_position_eq"}, case)
+        # the azimuth may be omitted (documented: it then is 0): the outline clauses hold for that form of the call as well
+        if pre == "p3d":
+            ck.count("azimuth_omitted")
+            d0, d1 = float(d.interface_distance(np.float64(th))), float(d.interface_distance(np.float64(th), np.float64(0.0)))
+            c0, c1 = float(d.interface_curvature(np.float64(th))), float(d.interface_curvature(np.float64(th), np.float64(0.0)))
+            if not (rel_close(d0, d1, 1e-14) and rel_close(c0, c1, 1e-14)):
+                ck.fail(f"{cls_name}: with the azimuth omitted (= 0) distance / curvature are {d0!r} / {c0!r}, with the azimuth 0 given {d1!r} / {c1!r}",
+                        {**sig, "check": "azimuth_omitted_is_zero"}, case)
+            ip0 = d.interface_position(np.float64(th))
+            unit0 = np.array([math.sin(th), 0.0, math.cos(th)])
+            if not np.allclose(ip0, pos + d1 * unit0, rtol=1e-13, atol=1e-13):
+                ck.fail(f"{cls_name}: interface_position(theta) is not centre + distance(theta, 0) * direction", {**sig, "check": "interface_position_eq", "azimuth_omitted": True}, case)
         # first order: curvature vs finite-difference mean curvature, volume_approx vs quadrature
         u = gen_amps(rng, N, 1.0)
         if np.any(u) and i % 3 == 0:
